@@ -4,6 +4,7 @@ import (
 	"bytes"
 	"fmt"
 	"math/big"
+	"sync/atomic"
 
 	"github.com/tjfoc/gmsm/sm2"
 
@@ -57,7 +58,7 @@ func runC02(c *Ctx) {
 	rep := c.Rep
 	rep.Meta("cases: plaintext lengths (0..130 dense, k*32-1/k*32/k*32+1, 1000, 4096; thorough: every length 0..4096) x key classes x {C1C3C2, C1C2C3} x {raw, ASN.1, crypto.Decrypter}; each ciphertext is opened by the reference decryption (C1 on curve, KDF counter mode, C3 = SM3(x2||M||y2) with 32-byte coordinates) and by gmsm; reference-made ciphertexts (incl. chosen nonces that give short coordinates) are opened by gmsm; rejection: every single-byte change (all positions for short ciphertexts), every truncation, other key, wrong ordering, and invalid-curve C1 with C2/C3 made consistent with [d]C1 computed by the generic group law; bounded progress of Encrypt via the nonce budget of the recording reader. Distinct non-trivial = distinct (form, key class, length class) and (rejection kind, position class).",
 		2500, []string{"ref SM2 encrypt/decrypt/KDF (GM/T 0003.5 encryption example at start of run)"},
-		[]string{"the all-zero-KDF retry branch is unreachable for non-empty plaintexts by sampling"})
+		[]string{"the all-zero-KDF retry branch is reached for 1- and 2-byte plaintexts only (forced class); for longer plaintexts it is unreachable by sampling"})
 	keys := keyClasses(c.Rng("keys"), c.Q(3, 24), c.Thorough)
 	var lens []int
 	if c.Thorough {
@@ -92,14 +93,14 @@ func runC02(c *Ctx) {
 		msg := r.Bytes(n)
 		seed := r.U64()
 		mkReader := func() *mon.RecReader {
-			rr := mon.NewRNG(seed)
-			return &mon.RecReader{Src: rr.Fill, Budget: 40 * 64}
+			return &mon.RecReader{Src: mon.StreamSrc(seed), Budget: 40 * 64}
 		}
 		for mode := 0; mode < 2; mode++ {
 			order := []string{"C1C3C2", "C1C2C3"}[mode]
 			cls := fmt.Sprintf("enc/raw/%s/%s/len=%s", order, key.cls, ptLenClass(n))
 			w := map[string]interface{}{"d": key.d.Text(16), "msg": mon.Hex(msg), "order": order, "stream_seed": seed, "len": n}
 			rd, rd2 := mkReader(), mkReader()
+			rd2.Short = true // same byte stream delivered in short reads: the result must not depend on the chunking
 			var ct, ct2 []byte
 			var err, err2 error
 			msgC := mon.NewCanary(msg, 16)
@@ -131,7 +132,10 @@ func runC02(c *Ctx) {
 				rep.Violation("C02/Encrypt/plaintext-memory-written", s, w)
 			}
 			if !bytes.Equal(ct, ct2) {
-				rep.Violation("C02/Encrypt/not-determined-by-reader-bytes", "", w)
+				rep.Violation("C02/Encrypt/not-determined-by-reader-bytes", "the same nonce stream delivered in one piece and in short reads gave different ciphertexts", w)
+			}
+			if rd.Served < 32 || rd2.Served < 32 {
+				rep.Violation("C02/Encrypt/consumed-fewer-than-32-nonce-bytes", fmt.Sprint(rd.Served, rd2.Served), w)
 			}
 			w["ciphertext"] = mon.Hex(ct)
 			// conformance by reference decryption
@@ -214,6 +218,65 @@ func runC02(c *Ctx) {
 			rep.Sample(map[string]interface{}{"kind": "roundtrip", "d": key.d.Text(16), "msg": mon.Hex(msg), "ciphertext_C1C3C2": mon.Hex(pool[i].ct)})
 		}
 	})
+
+	// ---- the retry branch: for a 1-byte plaintext one nonce in 256 gives an all-zero KDF output and Encrypt must start
+	// over with a fresh nonce. Many seeded nonce streams make the branch certain to be taken (the recording reader shows
+	// it: more than one nonce consumed); every output is opened by the reference and must be the ciphertext of one nonce.
+	{
+		key := keys[0]
+		nStreams := c.Q(3000, 30000)
+		var retried int64
+		Par(nStreams, func(i int) {
+			seed := c.Rng(fmt.Sprintf("retry%d", i)).U64()
+			msg := []byte{byte(i)}
+			if i%8 == 7 {
+				msg = []byte{byte(i), byte(i >> 8)}
+			}
+			mode := i % 2
+			rd := &mon.RecReader{Src: mon.NewRNG(seed).Fill, Budget: 40 * 64}
+			var ct []byte
+			var err error
+			w := map[string]interface{}{"d": key.d.Text(16), "msg": mon.Hex(msg), "stream_seed": seed, "mode": mode}
+			if pi := mon.Guard(func() { ct, err = sm2.Encrypt(key.pub(), msg, rd, mode) }); pi != nil {
+				rep.Violation("C02/Encrypt/panic/"+pi.Func+"/retry-class", pi.Value, w)
+				return
+			}
+			if err != nil {
+				rep.Violation("C02/Encrypt/error/retry-class", err.Error(), w)
+				return
+			}
+			took := rd.Served / 40
+			if rd.Served%40 != 0 {
+				took++
+			}
+			if took > 1 {
+				atomic.AddInt64(&retried, 1)
+				w["nonces_consumed"] = took
+			}
+			if len(ct) != 97+len(msg) {
+				rep.Violation("C02/Encrypt/ciphertext-length/retry-class", fmt.Sprintf("%d bytes for a %d-byte plaintext after %d nonce(s)", len(ct), len(msg), took), w)
+				return
+			}
+			parts, perr := ref.SplitRaw(ct, mode == sm2.C1C2C3)
+			if perr != nil {
+				rep.Violation("C02/Encrypt/malformed-ciphertext/retry-class", perr.Error(), w)
+				return
+			}
+			pt, derr := ref.Decrypt(key.d, parts)
+			if derr != nil || !bytes.Equal(pt, msg) {
+				rep.Violation("C02/Encrypt/reference-cannot-open/retry-class", fmt.Sprintf("after %d nonce(s): %v", took, derr), w)
+			}
+			if took > 1 {
+				rep.Eval(fmt.Sprintf("enc/retry-after-all-zero-kdf/len=%d/mode=%d", len(msg), mode))
+			} else {
+				rep.EvalN("enc/tiny-plaintext-no-retry", 1, false)
+			}
+		})
+		rep.Count("encryptions_that_took_the_all_zero_kdf_retry_branch", retried)
+		if retried == 0 {
+			rep.Note("the all-zero-KDF retry branch was not reached in this run")
+		}
+	}
 
 	// ---- reference-made ciphertexts opened by gmsm (cross direction), incl. chosen nonces with short coordinates
 	{
